@@ -378,3 +378,72 @@ mut("c10-benign-rename-helper", "C10", A,
            ("""        assert!(Self::is_writing(this.head), "poll_write called while poll_flush is pending");""", """        assert!(Self::record_in_flight(this.head), "poll_write called while poll_flush is pending");"""),
            ("""        while Self::is_writing(this.head) {""", """        while Self::record_in_flight(this.head) {"""),
            ("""        assert!(!Self::is_writing(this.head), "poll_flush called while poll_write is pending");""", """        assert!(!Self::record_in_flight(this.head), "poll_flush called while poll_write is pending");""")])
+
+# ---- C17 -------------------------------------------------------------------------------------------------
+PF = "src/protocol/fields.rs"
+PB = "src/protocol/body.rs"
+PM = "src/protocol/mod.rs"
+PV = "src/protocol/vars.rs"
+mut("c17-swap-status-discriminants", "C17", PF,
+    """    CantMpxConn = 1,
+    /// The FastCGI application is out of resources to process the request.
+    Overloaded = 2,""",
+    """    CantMpxConn = 2,
+    /// The FastCGI application is out of resources to process the request.
+    Overloaded = 1,""",
+    "R17.1/enum[ProtocolStatus]", "two protocol status codes swapped")
+mut("c17-overloaded-maps-unknownrole", "C17", PB,
+    """            ExitStatus::Overloaded => (ProtocolStatus::Overloaded, 0),""",
+    """            ExitStatus::Overloaded => (ProtocolStatus::UnknownRole, 0),""",
+    "R17.2/exit-status-table", "wrong protocol status for Overloaded")
+mut("c17-to-record-padding-8", "C17", PB,
+    """            version: Version::V1, rtype: RecordType::EndRequest,
+            request_id, content_length: Self::LEN as u16, padding_length: 0,""",
+    """            version: Version::V1, rtype: RecordType::EndRequest,
+            request_id, content_length: Self::LEN as u16, padding_length: 8,""",
+    "R17.3/to_record[EndRequest]", "EndRequest announces padding that is never sent")
+mut("c17-endrequest-first-in-epilogue", "C17", PB,
+    """    let mut buf = SmallVec::new();
+    for &s in streams {
+        let rec = RecordHeader::new(s, request_id);
+        buf.extend_from_slice(&rec.to_bytes());
+    }
+    buf.extend_from_slice(&EndRequest::from(status).to_record(request_id));
+    buf""",
+    """    let mut buf = SmallVec::new();
+    buf.extend_from_slice(&EndRequest::from(status).to_record(request_id));
+    for &s in streams {
+        let rec = RecordHeader::new(s, request_id);
+        buf.extend_from_slice(&rec.to_bytes());
+    }
+    buf""",
+    "R17.4/epilogue-language", "EndRequest before the stream end records")
+mut("c17-response-len-96", "C17", PV,
+    """    pub const RESPONSE_LEN: usize = 104;""",
+    """    pub const RESPONSE_LEN: usize = 96;""",
+    "R17.", "advertised maximum too small")
+mut("c17-padding-rule-off-by-one", "C17", PM,
+    """        if padding > 0 {
+            padding = 8 - padding;
+        }""",
+    """        if padding > 1 {
+            padding = 8 - padding;
+        }""",
+    "R17.6/set_lengths", "content 1 mod 8 gets padding 1")
+mut("c17-header-little-endian-id", "C17", PM,
+    """            request_id: u16::from_be_bytes([data[2], data[3]]),""",
+    """            request_id: u16::from_be_bytes([data[3], data[2]]),""",
+    "R17.7/layout[RecordHeader]", "request id bytes swapped in the decoder")
+mut("c17-type-before-version", "C17", PM,
+    """        Ok(Self {
+            version: Version::try_from(data[0])?,
+            rtype: RecordType::try_from(data[1])?,""",
+    """        let rtype = RecordType::try_from(data[1])?;
+        Ok(Self {
+            version: Version::try_from(data[0])?,
+            rtype,""",
+    "R17.8/version-checked-first", "unknown type reported for a record of unknown version")
+mut("c17-mpxs-conns-one", "C17", PV,
+    """                Self::FCGI_MPXS_CONNS => CompactString::const_new("0"),""",
+    """                Self::FCGI_MPXS_CONNS => CompactString::const_new("1"),""",
+    "R17.5/write_response/value", "advertises multiplexing")
